@@ -326,7 +326,10 @@ def _split_partition(df, on, nsplits):
     # add a "_partitions" column to perform the split.
     from dask.dataframe.dask_expr._collection import FrameBase
 
-    if not isinstance(on, FrameBase):
+    if on is None:
+        # Joining on the index (``left_index``/``right_index``)
+        on = df.index.to_frame()
+    elif not isinstance(on, FrameBase):
         on = _select_columns_or_index(df, on)
 
     dtypes = {}
